@@ -314,9 +314,17 @@ def run_family(prefix, n_quick, n_thorough, profiles):
         out = []
         for i in range(n):
             p = profiles[i % len(profiles)]
-            out.append(gen.gen_run_case("%s-%d-%d" % (prefix, seed, i), (seed * 1000003 + i * 7919 + hash(prefix) % 1000) & 0x7FFFFFFF, p))
+            out.append(gen.gen_run_case("%s-%d-%d" % (prefix, seed, i), (seed * 1000003 + i * 7919 + _stable_hash(prefix) % 1000) & 0x7FFFFFFF, p))
         return out
     return f
+
+
+def _stable_hash(text):
+    """a hash of a string that does not depend on the process (Python's own str hash is randomised per process)"""
+    import zlib
+    if os.environ.get("VERIF_HASH_SHIFT"):      # (diagnostic: reproduce the case sets of runs made before this hash was stable)
+        return int(os.environ["VERIF_HASH_SHIFT"])
+    return zlib.crc32(text.encode("utf-8"))
 
 
 def add_faults(casefn, kinds, frac=0.6, cont=0.0):
